@@ -305,6 +305,34 @@ func TestVxC02RoundTrip(t *testing.T) {
 			if err := vxDecodeInto(info, c, b, dstT, k, ch, "other-type"); err != nil {
 				return err
 			}
+			// (2b) a tuple may also be scanned into a list of destinations, one per element
+			if c.Type.Kind == cqlspec.Tuple && !c.Value.Null {
+				dests := make([]interface{}, len(c.Type.Elems))
+				holders := make([]reflect.Value, len(c.Type.Elems))
+				for i, et := range c.Type.Elems {
+					ht := vxPick(et, []cqlspec.Value{c.Value.Elems[i]}, ch, vxDst, false)
+					holders[i] = reflect.New(ht)
+					dests[i] = holders[i].Interface()
+				}
+				err, pan := vxSafeUnmarshal(info, b, dests)
+				if pan != nil {
+					return fmt.Errorf("tuple-destinations: Unmarshal(%v, %x, []interface{} of pointers) panicked: %v", c.Type, b, pan)
+				}
+				if err != nil {
+					k.Class("tuple-destinations:decode-refused")
+				} else {
+					k.Class("tuple-destinations:decoded")
+					for i, et := range c.Type.Elems {
+						if err := vxCompare(et, c.Value.Elems[i], holders[i].Elem(), fmt.Sprintf("value.%d", i)); err != nil {
+							msg := fmt.Sprintf("tuple-destinations: %v (bytes %x): %v", c.Type, b, err)
+							if ke := vxKnownFor(ch, msg); ke != nil {
+								return ke
+							}
+							return fmt.Errorf("%s", msg)
+						}
+					}
+				}
+			}
 			// (3) the driver's own default target
 			if vxDefaultCanHold(c.Type, c.Value) {
 				if err := vxDecodeInto(info, c, b, vxDefaultGoType(c.Type), k, ch, "default-type"); err != nil {
